@@ -28,8 +28,11 @@ Allowed(r) ==
       [] r.op = "from_format"            -> FromFormat(r.b)
       [] r.op = "from_str_checked"       -> FromStrChecked(r.b)
       [] r.op = "file_unix_name"         -> {Some(Raw(r.b))}
+      [] r.op = "unix_lit"               -> {Some(Raw(r.b))}
+      [] r.op = "string_from_unixstr"    -> {Some(Raw(r.b))}
 
 StringOps == {"path_join", "path_join_fmt", "parent_path", "path_file_name", "file_unix_name",
+              "unix_lit", "string_from_unixstr",
               "str_try_from_bytes", "str_try_from_str", "string_try_from_bytes",
               "string_try_from_vec", "string_try_from_str", "string_try_from_string",
               "string_from_str", "from_format", "from_str_checked"}
